@@ -292,9 +292,17 @@ def build_and_audit(pid, gen_names, prop_rel=None, allowed_axioms=()):
                 res["log"] += f"\n[translator {name}] {err}"
         if not res["ok"]:
             return res
+        try:
+            res["files"] = closure(prop_rel)
+            res["obligations"] = count_obligations(res["files"])
+        except Exception as e:  # e.g. a Gen file that could not be generated
+            res["log"] += f"\n[closure] {e}"
         ok, log = coq_make([prop_rel[:-2] + ".vo"])
         if not ok:
             res["ok"] = False
+            res["discharged"] = count_obligations(
+                [f for f in res["files"] if os.path.exists(os.path.join(COQ, f[:-2] + ".vo"))
+                 and os.path.getmtime(os.path.join(COQ, f[:-2] + ".vo")) >= os.path.getmtime(os.path.join(COQ, f))])
             res["log"] += log[-6000:]
             # name the file that failed
             m = re.findall(r'File "\./([^"]+)", line (\d+)', log)
@@ -544,7 +552,7 @@ def proof_coverage(out: Outcome, b, checker_cmd):
     out.coverage.update(
         {
             "obligations": n,
-            "discharged": n if b["ok"] else 0,
+            "discharged": n if b["ok"] else b.get("discharged", 0),
             "checker_cmd": checker_cmd,
             "trusted_base": ["coqc 8.16.1 kernel + vm_compute"] + [f"axiom:{a}" for a in b.get("axioms", [])],
             "coq_files": b.get("files", []),
